@@ -144,7 +144,7 @@ impl Scenario for Retry {
         "one (policy, outcome sequence) execution of RetryPolicy::execute under the virtual clock"
     }
     fn rule(&self) -> &'static str {
-        "Run i takes policy #(i mod 3000) of the full grid max_attempts 0..5 x initial_backoff {0,1ms,100ms,10s,1h} x max_backoff {0,1ms,100ms,10s,1h} x multiplier {0,0.5,1,2,10,1e300,NaN,-1,-0.0,inf} x jitter on/off (every second cycle the policy is built through RetryPolicy::from_env from environment strings; one run in eight from RAW strings - huge, negative, fractional, garbage, padded, unset - and a third of those with a retry budget of 255 ... 70000, where a few sequences run to the end of the budget and the exact number of invocations is judged) and executes, on the real RetryPolicy::execute under tokio's paused clock, ALL outcome sequences up to length 3 plus a seeded sample of longer ones (up to max_attempts+2) over {Ok, Network, Timeout, 503, ServiceUnavailable, 429, RateLimited(None|0|1ms|7s), Parse, 404}. The scripted closure records tokio::time::Instant::now() at every invocation, so every gap is measured exactly; jitter is drawn from the seeded entropy seam. One run in six additionally drives the real CdnClient::download_with_retry (default policy) over the simulated HTTP transport (scen/cdn.rs: per-request behaviour queues over {ok, 5xx x8, 429 with no / 0 / 1 / 7 / unparsable (word, HTTP date, 2^64, negative, fractional) Retry-After, 400/403/404/410, refused, reset, client time-out, body reset, body stall}); there the number of REQUESTS, the waits between the failure of one request and the start of the next (from the simulated host's log, on tokio's clock), the stop at the first 200 / first definitive status, and the error returned are judged by the same rules. One run in ten makes every attempt take 1 ms / 45 s / 1 h of virtual time (waits are measured from the end of an attempt to the start of the next); one typed run in ten has back-offs given in nanoseconds (1 ns, 999 999 ns, 1.5 ms ...). evaluations = executions; non-trivial = the closure was invoked >= 2 times (>= 1 injected failure was retried); distinct = hash of (policy, sequence, measured gaps)."
+        "Run i takes policy #(i mod 3000) of the full grid max_attempts 0..5 x initial_backoff {0,1ms,100ms,10s,1h} x max_backoff {0,1ms,100ms,10s,1h} x multiplier {0,0.5,1,2,10,1e300,NaN,-1,-0.0,inf} x jitter on/off (every second cycle the policy is built through RetryPolicy::from_env from environment strings; one run in eight from RAW strings - huge, negative, fractional, garbage, padded, unset - and a third of those with a retry budget of 255 ... 70000 or at the edges of 32 bits (2^31-1 ... 2^32-1; only sequences that end early), where a few sequences run to the end of the budget and the exact number of invocations is judged) and executes, on the real RetryPolicy::execute under tokio's paused clock, ALL outcome sequences up to length 3 plus a seeded sample of longer ones (up to max_attempts+2) over {Ok, Network, Timeout, 503, ServiceUnavailable, 429, RateLimited(None|0|1ms|7s), Parse, 404}. The scripted closure records tokio::time::Instant::now() at every invocation, so every gap is measured exactly; jitter is drawn from the seeded entropy seam. One run in six additionally drives the real CdnClient::download_with_retry (default policy) over the simulated HTTP transport (scen/cdn.rs: per-request behaviour queues over {ok, 5xx x8, 429 with no / 0 / 1 / 7 / unparsable (word, HTTP date, 2^64, negative, fractional) Retry-After, 400/403/404/410, refused, reset, client time-out, body reset, body stall}); there the number of REQUESTS, the waits between the failure of one request and the start of the next (from the simulated host's log, on tokio's clock), the stop at the first 200 / first definitive status, and the error returned are judged by the same rules. One run in ten makes every attempt take 1 ms / 45 s / 1 h of virtual time (waits are measured from the end of an attempt to the start of the next); one typed run in ten has back-offs given in nanoseconds (1 ns, 999 999 ns, 1.5 ms ...). evaluations = executions; non-trivial = the closure was invoked >= 2 times (>= 1 injected failure was retried); distinct = hash of (policy, sequence, measured gaps)."
     }
     fn assumptions(&self) -> Vec<&'static str> {
         vec![
@@ -235,7 +235,7 @@ impl Scenario for Retry {
             };
             // a retry budget far above the grid's 0..5 (the statement bounds the attempts for EVERY configured
             // number of retries): around the widths of small counters
-            let many = if rng.chance(1, 3) { Some((*rng.pick(&["255", "256", "257", "300", "1000", "65535", "65536", "70000"])).to_string()) } else { None };
+            let many = if rng.chance(1, 3) { Some((*rng.pick(&["255", "256", "257", "300", "1000", "65535", "65536", "70000", "2147483647", "2147483648", "4294967294", "4294967295"])).to_string()) } else { None };
             Some(vec![
                 match many {
                     Some(m) => m,
@@ -398,7 +398,8 @@ async fn run(case: &Case, ctx: &mut Ctx) -> Option<Violation> {
         if large {
             let ends_early = seq.iter().take(3).any(|o| !retryable(*o));
             let slot = if ends_early { &mut short_done } else { &mut long_done };
-            if *slot >= if ends_early { 4 } else { 6 } {
+            // (a budget of billions: only the sequences that end early - the others would need billions of attempts)
+            if *slot >= if ends_early { 4 } else if policy.max_attempts > 100_000 { 0 } else { 6 } {
                 continue;
             }
             *slot += 1;
@@ -559,7 +560,7 @@ async fn run(case: &Case, ctx: &mut Ctx) -> Option<Violation> {
         }
         // ---- number and order of attempts ----
         if m as u64 > u64::from(policy.max_attempts) + 1 {
-            viol!("too_many_attempts", "", format!("the operation was invoked {m} times, more than max_attempts + 1 = {}", policy.max_attempts + 1));
+            viol!("too_many_attempts", "", format!("the operation was invoked {m} times, more than max_attempts + 1 = {}", u64::from(policy.max_attempts) + 1));
         }
         let res = match res {
             Err(_elapsed) => {
